@@ -461,6 +461,29 @@ def _formatter(spec):
         if cd is not None:
             cd = {"set": set, "frozenset": frozenset, "list": list, "tuple": tuple}[spec["ctype"]](cd)
         cls = spec["cls"]
+        if cls == "Formatter-lang":
+            # Formatter(language=<any way of producing the value>): the constant, the literal, a computed equal string
+            # (a different object), a str subclass, None, "" and other spellings
+            lv, form = spec["lang"], spec["form"]
+            if lv is None:
+                lang = None
+            elif form == "const":
+                lang = {"xml": Formatter.XML, "html": Formatter.HTML}.get(lv, lv)
+            elif form == "computed":
+                lang = "".join(list(lv))  # equal, not identical (never interned)
+                assert lv == "" or len(lv) < 2 or lang is not lv
+            elif form == "subclass":
+                lang = type("Lang", (str,), {})(lv)
+            else:
+                lang = lv
+            f = Formatter(lang, es, cdata_containing_tags=cd)
+            arg = f
+            xml = (lv == "xml")
+            conf = set(spec["cdata"]) if spec["cdata"] is not None else (set() if xml else {"script", "style"})
+            cdtok = "none" if spec["cdata"] is None else (";".join(tok(x) for x in spec["cdata"]) or "-")
+            line = f"c09 fmtlang {'none' if lv is None else tok(lv)} {FN_CODE[spec['fn']]} {cdtok}"
+            fn = 0 if f.entity_substitution is None else FN_CODE.get(getattr(f.entity_substitution, "__name__", ""), 99)
+            return arg, f, conf, fn, line
         if cls == "HTMLFormatter":
             f = HTMLFormatter(entity_substitution=es, cdata_containing_tags=cd)
         elif cls == "XMLFormatter":
@@ -594,6 +617,17 @@ def scenarios(ctx):
                     spec = dict(kind="custom", cls=cls, fn=fn, cdata=cd, ctype=ctype)
                     for parent in ("p", "script", "style", "x-custom", "pre", "textarea"):
                         yield "custom-cdata", [dict(parent=parent, s=tok(s), formatter=spec)]
+    # the language argument of a user-built Formatter, in every way a program can come by the value
+    langs = [("xml", "const"), ("xml", "literal"), ("xml", "computed"), ("xml", "subclass"), ("html", "const"), ("html", "computed"),
+             ("html", "subclass"), (None, "literal"), ("", "literal"), ("XML", "literal"), ("Xml", "computed"), ("xhtml", "literal"),
+             ("xml ", "computed")]
+    for s in texts[:6]:
+        for lv, form in langs:
+            for fn in ("substitute_xml", "substitute_html"):
+                for cd, ctype in ((None, "set"), ([], "set"), (["script"], "set")):
+                    spec = dict(kind="custom", cls="Formatter-lang", lang=lv, form=form, fn=fn, cdata=cd, ctype=ctype)
+                    for parent in ("p", "script", "style"):
+                        yield "custom-language", [dict(parent=parent, s=tok(s), formatter=spec)]
     # histories: every text is unique to its history, so nothing rendered earlier in this process can interfere
     k = 0
     for base in texts[:ctx.n(16, 60)]:
